@@ -1143,7 +1143,7 @@ func main() {
 		}
 	} else {
 		rng := hx.NewRng(a.Seed)
-		for run.NOps < a.N {
+		for run.NOps < a.N && !run.Enough() {
 			impl := "v1"
 			if rng.Chance(1, 2) {
 				impl = "v2"
